@@ -142,7 +142,17 @@ CLAIMS = {
          "function names, no reference to an unspecialised generic function, no panic, termination watchdog; type instances: every "
          "construction, arm pattern and field read of a data type in the real Mono program carries the field types of the one definition "
          "monoenv holds under that name (distinct instantiations never share a name or a body), on all streams incl. a catalogue of "
-         "instantiation pairs that differ at exactly one position of the argument's type tree (5 containers x 17 positions).",
+         "instantiation pairs that differ at exactly one position of the argument's type tree (5 containers x 17 positions). "
+         "One instance however it is asked for: key_order_irrelevant (SubstKey::new, as regenerated from mono.rs into Gen/MonoKey.lean, gives "
+         "two permutations of one set of bindings the same key: nameLe is a total order, key is a sorted permutation) and "
+         "same_instance_requested_once (a second ensure_instance with the bindings found in another order returns the same name and leaves "
+         "instance table, queued set and work list unchanged); key_is_source_key / request_orders_are_source_orders pin the model's key and "
+         "the unify order of its two request routes (call, function value) to the regenerated table. Validated, not proved: that the routes "
+         "produce permutations of one binding set - by the catalogue `req:` (16 signature shapes with the type parameters in different "
+         "first-occurrence orders in declaration, parameter list and result x 9 request routes: call, function value as argument / let / "
+         "returned / array element / struct field, call or value inside another generic instance, call inside a closure; methods by path, "
+         "dot, inside a generic) under the model-free oracle that no two functions of the real Mono program are the same instance of one "
+         "Core function (whatever they are called) and that exactly the requested instances exist.",
     design_ref="§5 C07, §C07 — as built",
     note="Proved: the theorems above about the Lean model. _partial: no_residue assumes the instance substitution covers the function (false "
          "for a type parameter that occurs only in a body - known finding); mono_preserves is proved for the closure-free fragment with "
